@@ -170,43 +170,47 @@ def check_indicators(rep, repo):
 
 
 def check_call_sites(rep, repo, fw, wf, rf):
+    """term level: every call of the writer inside create_instance (helpers and closures inlined) gets (lists[x], ties[x]) of two
+    create_instance parameters, and the arrays handed in for them by generate_instances are a list array and the indicator
+    array drawn for that very array."""
+    from ..writerfacts import writer_facts
+    from ..absint import iter_effects
     for cls, (f, sites) in fw.items():
-        for n, (ia, ib) in sites:
-            a, b = n.args[ia], n.args[ib]
-            ok = (isinstance(a, ast.Subscript) and isinstance(b, ast.Subscript) and isinstance(a.value, ast.Name) and isinstance(b.value, ast.Name)
-                  and ast.dump(a.slice) == ast.dump(b.slice))
-            rep.check(ok, 'C13.R5', f.where, 'writer is applied to (list[x], indicators[x]) of the same agent', got=ast.unparse(n), want='%s(lists[x], ties[x])' % wf.name,
-                      construct='writer call ' + ast.unparse(n), loc='%s:%d' % (f.relpath, n.lineno))
+        try:
+            wfx = writer_facts(repo, cls, True)
+        except Exception as u:
+            rep.inconclusive('C13.R5', f.where, 'create_instance is inside the interpreted fragment', got=str(u)[:120])
+            continue
+        calls = [e for e, c in iter_effects(wfx.ci_effs) if e.kind == 'call' and e.target is wf]
+        if not calls:
+            rep.inconclusive('C13.R5', f.where, 'calls of the tie writer are visible in create_instance', got='0 calls')
+            continue
+        params = set(wfx.actual)
+        for e in calls:
+            a, b = (list(e.args) + [None, None])[:2]
+            kw = dict(getattr(e, 'kw', ()))
+            wp = wf.params
+            a = kw.get(wp[0], a)
+            b = kw.get(wp[1], b) if len(wp) > 1 else b
+            ok = (a is not None and b is not None and a[0] == 'idx' and b[0] == 'idx' and a[2] == b[2] and a[1][0] == 'sym' and b[1][0] == 'sym'
+                  and a[1][1] in params and b[1][1] in params and a[1] != b[1])
+            rep.check(ok, 'C13.R5', f.where, 'writer is applied to (list[x], indicators[x]) of the same agent', got='%s(%s, %s)' % (wf.name, show(a)[:50] if a else None, show(b)[:50] if b else None),
+                      want='%s(lists[x], ties[x])' % wf.name, construct='writer call %s(%s, %s)' % (wf.name, show(a)[:40] if a else None, show(b)[:40] if b else None), loc=e.loc)
             if not ok:
                 continue
-            gi = repo.method(cls, 'generate_instances')
-            params = f.params[1:]
-            la, ta = a.value.id, b.value.id
-            call = None
-            for m in ast.walk(gi.node):
-                if isinstance(m, ast.Call) and isinstance(m.func, ast.Attribute) and m.func.attr == 'create_instance':
-                    call = m
-            if call is None or la not in params or ta not in params:
-                rep.inconclusive('C13.R5', gi.where, 'create_instance call found', got='call or parameter not found')
-                continue
-            actual = {}
-            for p_, a_ in zip(params, call.args):
-                actual[p_] = a_
-            for k in call.keywords:
-                actual[k.arg] = k.value
-            A1, A2 = actual.get(la), actual.get(ta)
-            pair_ok = False
-            if isinstance(A1, ast.Name) and isinstance(A2, ast.Name):
-                for m in ast.walk(gi.node):
-                    if isinstance(m, ast.Assign) and len(m.targets) == 1 and isinstance(m.targets[0], ast.Tuple) and len(m.targets[0].elts) == 2 \
-                            and [getattr(e, 'id', None) for e in m.targets[0].elts] == [A1.id, A2.id]:
-                        v = m.value
-                        if isinstance(v, ast.IfExp):
-                            v = v.body if isinstance(v.body, ast.Call) else v.orelse
-                        if isinstance(v, ast.Call):
-                            pair_ok = True
-            rep.check(pair_ok, 'C13.R5', gi.where, 'list and indicator arrays passed for %s/%s are the two results of one producer call' % (la, ta),
-                      got='%s, %s' % (ast.unparse(A1) if A1 is not None else None, ast.unparse(A2) if A2 is not None else None), want='a, b = producer(...)',
+            la, ta = a[1][1], b[1][1]
+            A1, A2 = wfx.actual.get(la), wfx.actual.get(ta)
+            def branches(t):
+                if t is None:
+                    return []
+                if t[0] == 'ite':
+                    return branches(t[2]) + branches(t[3])
+                return [t]
+            b1 = [x for x in branches(A1) if x not in (('list', ()), NONE)]
+            b2 = [x for x in branches(A2) if x not in (('list', ()), NONE)]
+            pair_ok = bool(b1) and bool(b2) and all(any(contains(y, lambda z, x=x: z == x) for x in b1) for y in b2)
+            rep.check(pair_ok, 'C13.R5', repo.method(cls, 'generate_instances').where, 'the indicator array passed for %s is the one drawn for the list array passed for %s' % (ta, la),
+                      got='%s ; %s' % (show(A1)[:80] if A1 else None, show(A2)[:80] if A2 else None), want='ties drawn per list of that very array',
                       construct='writer argument pairing %s/%s' % (la, ta))
     # the reader is used for both sides
     for c in ('_create_pairs_row', '_create_student_ranks'):
